@@ -18,6 +18,12 @@ static char *get_cn(const X509_NAME *x509_name)
 
     X509_NAME_get_text_by_NID(x509_name, NID_commonName, cn, len + 1);
 
+    /* a name with an embedded NUL must not be reported as its prefix */
+    if (strlen(cn) != len) {
+	ut_free(cn);
+	return NULL;
+    }
+
     return cn;
 }
 
